@@ -26,6 +26,9 @@ ASSUMPTIONS = ["vpchk/ctxmodel.model_using_rounds transcribes DESIGN.md appendix
 LEVEL_TEXT = "Model-based stateful testing of using() derivation chains with an isolation invariant checked after every step on every live hasher object."
 LEVEL_NOTE = "Trusted: the using() model (appendix A, vpchk/ctxmodel.py), Hypothesis."
 TECHNIQUE = "Hypothesis rule-based state machine (model-based) with per-step isolation invariant"
+#: thorough tier: seed-dependent tasks are repeated under this many derived seeds (run.py); the listed task functions enumerate fixed domains
+THOROUGH_REPS = 1
+DETERMINISTIC_FNS = ()
 
 # family -> cheap rounds window used for the first derivation and for probes
 FAMILIES = {
